@@ -71,8 +71,15 @@ func genC12(t *rapid.T) gen.ProgCase {
 // c12Bundle, when set, is the message bundle the renders of the current case use.
 var c12Bundle *mapBundle
 
+// c12ViaTofu: render through Tofu.Render (the convenience entry point) instead of Renderer.Execute.
+var c12ViaTofu bool
+
 func renderTo(cb *compiled, c gen.ProgCase, w io.Writer) (err error, pn interface{}) {
 	pn = catch(func() {
+		if c12ViaTofu {
+			err = cb.tofu.Render(w, c.Entry, toDataMap(c.Data))
+			return
+		}
 		rd := cb.tofu.NewRenderer(c.Entry)
 		if c12Bundle != nil {
 			rd.WithMessages(c12Bundle)
@@ -113,6 +120,9 @@ func checkC12(c gen.ProgCase) Verdict {
 	nontrivial := 0
 	check := func(w *faultWriter, what string) error {
 		err, pn := renderTo(cb, c, w)
+		if c12ViaTofu {
+			what += " [through Tofu.Render]"
+		}
 		if pn != nil {
 			return fmt.Errorf("%s: render panicked: %v", what, pn)
 		}
@@ -138,31 +148,39 @@ func checkC12(c gen.ProgCase) Verdict {
 		return nil
 	}
 	renders := 0
-	for k := 0; k < W; k++ {
-		for _, sticky := range []bool{true, false} {
-			renders++
-			if err := check(&faultWriter{failCall: k, capacity: -1, sticky: sticky}, fmt.Sprintf("write call %d of %d fails (sticky=%v)", k, W, sticky)); err != nil {
-				return bad(true, "%v\n%s data=%v", err, showSources(names, srcs), c.Data)
-			}
-		}
-		if k > 0 && k < W-1 {
-			nontrivial++
-		}
-	}
 	step := 1
 	if B > 2000 {
 		step = B / 1000
 	}
-	for b := 0; b < B; b += step {
-		renders++
-		if err := check(&faultWriter{failCall: -1, capacity: b, sticky: true}, fmt.Sprintf("writer accepts only %d of %d bytes", b, B)); err != nil {
-			return bad(true, "%v\n%s data=%v", err, showSources(names, srcs), c.Data)
-		}
+	entries := []bool{false}
+	if c12Bundle == nil && !c.HasIJ {
+		entries = []bool{false, true} // also through Tofu.Render, which takes neither injected data nor messages
 	}
-	// a writer with exactly enough capacity must see no error
-	renders++
-	if err := check(&faultWriter{failCall: -1, capacity: B, sticky: true}, "writer with exactly enough capacity"); err != nil {
-		return bad(true, "%v\n%s", err, showSources(names, srcs))
+	defer func() { c12ViaTofu = false }()
+	for _, via := range entries {
+		c12ViaTofu = via
+		for k := 0; k < W; k++ {
+			for _, sticky := range []bool{true, false} {
+				renders++
+				if err := check(&faultWriter{failCall: k, capacity: -1, sticky: sticky}, fmt.Sprintf("write call %d of %d fails (sticky=%v)", k, W, sticky)); err != nil {
+					return bad(true, "%v\n%s data=%v", err, showSources(names, srcs), c.Data)
+				}
+			}
+			if k > 0 && k < W-1 {
+				nontrivial++
+			}
+		}
+		for b := 0; b < B; b += step {
+			renders++
+			if err := check(&faultWriter{failCall: -1, capacity: b, sticky: true}, fmt.Sprintf("writer accepts only %d of %d bytes", b, B)); err != nil {
+				return bad(true, "%v\n%s data=%v", err, showSources(names, srcs), c.Data)
+			}
+		}
+		// a writer with exactly enough capacity must see no error
+		renders++
+		if err := check(&faultWriter{failCall: -1, capacity: B, sticky: true}, "writer with exactly enough capacity"); err != nil {
+			return bad(true, "%v\n%s", err, showSources(names, srcs))
+		}
 	}
 	if c12rec != nil {
 		c12rec.add("fault_renders", renders)
